@@ -863,6 +863,9 @@ def run_C12(ctx: Ctx) -> Result:
         for _ in range(ctx.rng.randrange(0, 5)):
             g.emit(row("y"))
         docs.append("".join(g.lines))
+    for ch in ["\u2028", "\u2029", "\x85", "\x0b", "\x0c", "\x1c", "\x1d", "\x1e", "\r", "\xa0", "\u3000", "😀"]:
+        docs.append(f"Feature: f\n  Scenario: s\n    Given a\n      | left{ch}right | b |\n      | c | {ch}d{ch} |\n")
+        docs.append(f"Feature: f\n  Scenario Outline: s\n    Given <a>\n    Examples:\n      | a |\n      | x{ch}y |\n")
     res.merge(streams.parse_stream(docs + streams.corpus_docs(), proj_tables, modes=(False, True)))
     return res
 
@@ -871,7 +874,8 @@ def run_C13(ctx: Ctx) -> Result:
     res = Result()
     docs = []
     content_pool = ["Given x", "@tag", "# comment", "| a |", "Feature: f", "", "   ", '"""', "```", '\\"\\"\\"', "\\`\\`\\`",
-                    "Scenario: s", "  indented", "\tTab", "Examples:", '  \\"\\"\\" x \\"\\"\\"', "text\r", "é😀", '""', "``"]
+                    "Scenario: s", "  indented", "\tTab", "Examples:", '  \\"\\"\\" x \\"\\"\\"', "text\r", "é😀", '""', "``",
+                    "x\u2028y", "a\x0cb", "\x85", 'x\u2028"""', "x\u2029```", "v\x0bt", "fs\x1cgs\x1drs\x1e", "nb\xa0sp\u3000"]
     for _ in range(ctx.n(1500, 15000)):
         r = ctx.rng
         d = r.choice(['"""', "```"])
@@ -959,6 +963,7 @@ def run_C15(ctx: Ctx) -> Result:
         "# language: ru\nФункция: ф\n  Сценарий: с\n    Допустим ```\n    ```\n",
         "Feature: t\n  Scenario: s\n    Given t\n      | a |\n      | b | c |\n",
         "Feature: d\n  Background:\n    Given b\n    ```\n    x\n    ```\n  Scenario: s\n    When w\n",
+        "Feature: q\n  Scenario: s\n    Given t\n      | a |\n      | b | c |\n  @tag\n  # c\n  Scenario: next\n    Given x\n",
     ]
     seqs = [list(p) for p in itertools.permutations(range(len(pool)), 2)]
     if ctx.thorough:
@@ -982,8 +987,8 @@ def run_C15(ctx: Ctx) -> Result:
         r = {k: f(v) for k, v in o.items() if k in ("ok", "errors", "composite", "crash", "builds")}
         return r
 
-    for sq in seqs:
-        stop = rng.random() < 0.3
+    runs = [(sq, st) for sq in seqs for st in ((False, True) if len(sq) == 2 else (rng.random() < 0.3,))]
+    for sq, stop in runs:
         parser = impl.Parser(impl.RecordingBuilder(impl.id_gen(0)))
         matcher = impl.CountingMatcher("en")
         case = {"history": [pool[k] for k in sq], "stop": stop}
@@ -997,6 +1002,34 @@ def run_C15(ctx: Ctx) -> Result:
                 res.fail("history", {**case, "position": pos}, a, b,
                          f"document {pos} of the history parses differently than with fresh instances: {first_diff(a, b)}")
                 break
+    # one matcher through two documents of different dialects that share a step keyword of different category
+    D_ = impl.dialects()
+    cat_ = {}
+    for n_, sp_ in D_.items():
+        for role_ in ("given", "when", "then", "and", "but"):
+            for kw_ in sp_[role_]:
+                if kw_ != "* ":
+                    cat_.setdefault(kw_, {}).setdefault("Conjunction" if role_ in ("and", "but") else role_, []).append(n_)
+    coll = [(kw_, c_) for kw_, c_ in cat_.items() if len(c_) > 1]
+    for kw_, c_ in coll:
+        names_ = [(r_, n_) for r_, ns_ in c_.items() for n_ in ns_[:2]]
+        for (ra, a_), (rb, b_) in itertools.permutations(names_, 2):
+            if ra == rb:
+                continue
+            def doc_(n_):
+                sp_ = D_[n_]
+                return f"# language: {n_}\n{sp_['feature'][0]}: f\n  {sp_['scenario'][0]}: s\n    {sp_['given'][-1]}a\n    {kw_}b\n"
+            m_ = impl.TokenMatcher("en")
+            first = impl.pickles(doc_(a_), matcher=m_)
+            second = impl.pickles(doc_(b_), matcher=m_)
+            fresh_ = impl.pickles(doc_(b_))
+            res.note({"keyword": kw_, "dialects": [a_, b_]}, True)
+            if pickles_all(second) != pickles_all(fresh_):
+                res.fail("history", {"source": doc_(b_), "earlier_documents_through_same_matcher": [doc_(a_)]},
+                         pickles_all(second), pickles_all(fresh_),
+                         f"step keyword {kw_!r} is typed differently after the matcher parsed a {a_} document: "
+                         + str(first_diff(pickles_all(second), pickles_all(fresh_))))
+    res.stats["cross_dialect_keyword_collisions"] = len(coll)
     # model side: the same histories through the model give the fresh results too (ids offset)
     # interleavings at token-read granularity
     res.merge(interleave_check(ctx, pool))
@@ -1562,7 +1595,8 @@ def run_C19(ctx: Ctx) -> Result:
                         cases.append(("StepLine", name, ind + b + " " + kw + "text \n"))
                 cases.append(("StepLine", name, kw + "no bullet\n"))
     for ind in range(0, 9):
-        for row in ("| a | b |", "|---|:-:|", "| - |", "|a|---|", "||"):
+        for row in ("| a | b |", "|---|:-:|", "| - |", "|a|---|", "||", "| -5 | 3 |", "| --verbose | on |", "| :-) | x |",
+                    "| a- | -b- |", "| -: x |", "|:--:x|", "| --- x |", "| :---: |", "| ::-- |", "| - - |"):
             cases.append(("TableRow", "en", " " * ind + row + "\n"))
     for line in ["`@a`", "  `@a` `@b`", "text `@a` more `@b c` `x` `@`", "no tags", "`@a``@b`", "\t`@é` `@😀`",
                  "`@smoke-slow` `@smoke`", "`@a` `@a`", "mail bob@wip.example or see `@wip`", "  `@x` @x `@x`", "`@ab` `@b` `@a`"]:
